@@ -81,6 +81,7 @@ type State struct {
 	dead    bool
 	notes   []string
 	closureChecks []closureCheck
+	locals        []*Ptr // non-escaping local cells: survive "modifies all"
 	typeIDs map[string]bool // concrete type keys seen on this path
 	ifaces  map[string]bool
 }
@@ -100,6 +101,7 @@ func (st *State) clone() *State {
 	n.trace = append([]Event(nil), st.trace...)
 	n.loops = append([]loopRec(nil), st.loops...)
 	n.locks = append([]string(nil), st.locks...)
+	n.locals = append([]*Ptr(nil), st.locals...)
 	n.notes = append([]string(nil), st.notes...)
 	return &n
 }
@@ -207,11 +209,63 @@ func (st *State) assumeWellFormed(v *Val) { st.assume(st.wellFormed(v)) }
 // ---------------------------------------------------------------------------
 // heap arrays
 
+const genKey = "\x00gen"
+
+// heapGet: current version of a heap array. Arrays not touched since the last
+// "modifies all" havoc resolve to a fresh array of that havoc generation (not to the
+// entry array).
 func (st *State) heapGet(key string, sort Sort) Tm {
 	if t, ok := st.heap[key]; ok {
 		return t
 	}
+	if g, ok := st.heap[genKey]; ok {
+		t := st.genArray(g.S, key, sort)
+		st.heap[key] = t
+		return t
+	}
 	return st.heapInit(key, sort)
+}
+
+func (st *State) genArray(gen, key string, sort Sort) Tm {
+	if _, ok := st.sorts[key]; !ok {
+		st.sorts[key] = sort
+	}
+	n := "HA" + gen + "!" + sanitize(key)
+	st.x.declUF(n, fmt.Sprintf("(declare-fun %s () %s)", n, sort))
+	return Tm{n, sort}
+}
+
+var havocGen int
+
+// havocAll forgets the whole heap (except immutable boxes and constant ghosts).
+func (st *State) havocAll() {
+	type saved struct {
+		p *Ptr
+		v *Val
+	}
+	var keepLocals []saved
+	for _, p := range st.locals {
+		keepLocals = append(keepLocals, saved{p, st.loadFrom(st.heap, p)})
+	}
+	defer func() {
+		for _, s := range keepLocals {
+			st.storeTo(s.p, s.v)
+		}
+	}()
+	havocGen++
+	keep := map[string]Tm{}
+	for k, v := range st.heap {
+		if strings.HasPrefix(k, "B|") {
+			keep[k] = v
+		}
+		if strings.HasPrefix(k, "ghost|") {
+			if gd := st.x.cs.Ghosts[strings.TrimPrefix(k, "ghost|")]; gd != nil && ghostIsConst(gd) {
+				keep[k] = v
+			}
+		}
+	}
+	st.heap = keep
+	st.heap[genKey] = Tm{fmt.Sprint(havocGen), SInt}
 }
 
 func (st *State) heapInit(key string, sort Sort) Tm {
@@ -230,6 +284,17 @@ func (st *State) heapInit(key string, sort Sort) Tm {
 func (st *State) viewGet(view map[string]Tm, key string, sort Sort) Tm {
 	if t, ok := view[key]; ok {
 		return t
+	}
+	if g, ok := view[genKey]; ok && !strings.HasPrefix(key, "B|") {
+		constGhost := false
+		if strings.HasPrefix(key, "ghost|") {
+			if gd := st.x.cs.Ghosts[strings.TrimPrefix(key, "ghost|")]; gd != nil && ghostIsConst(gd) {
+				constGhost = true
+			}
+		}
+		if !constGhost {
+			return st.genArray(g.S, key, sort)
+		}
 	}
 	if _, ok := st.sorts[key]; !ok {
 		st.sorts[key] = sort
